@@ -331,10 +331,15 @@ func SubscribeWithReplay[T any](
 	}
 
 	// Subscribe for future events with offset tracking
+	// saveMu makes "read the bus offset, save it" one step, so that concurrent
+	// publishers cannot save an older offset after a newer one
+	var saveMu sync.Mutex
 	wrappedHandler := func(event T) {
 		handler(event)
 
 		// Update offset after handling
+		saveMu.Lock()
+		defer saveMu.Unlock()
 		bus.storeMu.RLock()
 		offset := bus.lastOffset
 		bus.storeMu.RUnlock()
